@@ -3,6 +3,8 @@
 
 package redis
 
+import "io"
+
 // Re-exports for the verification harness (/verif). Compiled only with -tags verif.
 
 // VerifCrc16 is crc16.
@@ -13,3 +15,35 @@ func VerifHashtag(b []byte) []byte { return hashtag(b) }
 
 // VerifSlotNum is slotNum.
 const VerifSlotNum = slotNum
+
+// VerifDecoder wraps the RESP decoder.
+type VerifDecoder struct{ d *decoder }
+
+// VerifNewDecoder is newDecoder.
+func VerifNewDecoder(r io.Reader, bufSize int) *VerifDecoder {
+	return &VerifDecoder{d: newDecoder(r, bufSize)}
+}
+
+// Decode is decoder.Decode.
+func (d *VerifDecoder) Decode() (*RespValue, error) { return d.d.Decode() }
+
+// VerifEncode encodes v with a fresh encoder of the given buffer size and flushes.
+func VerifEncode(w io.Writer, bufSize int, v *RespValue) error {
+	e := newEncoder(w, bufSize)
+	if err := e.Encode(v); err != nil {
+		return err
+	}
+	return e.Flush()
+}
+
+// VerifBtoi64 is btoi64.
+func VerifBtoi64(b []byte) (int64, error) { return btoi64(b) }
+
+// VerifItoa is itoa.
+func VerifItoa(i int64) string { return itoa(i) }
+
+// Limits of the decoder.
+const (
+	VerifMaxArrayLen      = maxArrayLen
+	VerifMaxBulkStringLen = maxBulkStringLen
+)
